@@ -215,6 +215,11 @@ func (r *Runner) doQuery(ctx sdk.Context, ln *Line) {
 	}
 	kind, by := gs("kind"), gs("by")
 	pages := []PageObs{}
+	defer func() {
+		if ln.Obs.X != nil {
+			ln.Obs.X["prefixRelated"] = r.prefixRelated(ctx, kind)
+		}
+	}()
 	ln.Res = Res{Ack: "ok"}
 
 	svc := "/noble.orbiter.component.dispatcher.v1.Query/"
@@ -259,7 +264,11 @@ func (r *Runner) doQuery(ctx sdk.Context, ln *Line) {
 	offset := uint64(0)
 	for page := 0; page < 500; page++ {
 		pr := &query.PageRequest{Limit: limit, Reverse: gb("reverse"), CountTotal: gb("countTotal")}
-		if gs("walk") == "offset" {
+		if gs("walk") == "nopage" && page == 0 {
+			pr = nil // a request without a pagination block: the SDK applies its default page
+		} else if gs("walk") == "nopage" {
+			pr = &query.PageRequest{Key: key}
+		} else if gs("walk") == "offset" {
 			pr.Offset = offset
 		} else {
 			pr.Key = key
@@ -298,7 +307,37 @@ func (r *Runner) doQuery(ctx sdk.Context, ln *Line) {
 			break
 		}
 		key = next
+		if limit == 0 {
+			offset += 100
+		}
 		offset += limit
 	}
 	ln.Obs.X = map[string]any{"pages": pages}
+}
+
+// prefixRelated reports (pure projection of the ledger) whether two entries of the given kind
+// share all key components but the last, and the last component of one is a proper string
+// prefix of the other's (e.g. counterparties "10" and "100"). Used only to identify the known
+// finding about reverse key-based walks precisely (KNOWN_FINDINGS.json).
+func (r *Runner) prefixRelated(ctx sdk.Context, kind string) bool {
+	st := r.w.project(ctx)
+	type kv struct{ head, last string }
+	var ks []kv
+	if kind == "amounts" {
+		for _, e := range st.Amt {
+			ks = append(ks, kv{e.Sp + "|" + e.Sc + "|" + e.Dp + "|" + e.Dc, e.Denom})
+		}
+	} else {
+		for _, e := range st.Cnt {
+			ks = append(ks, kv{e.Sp + "|" + e.Sc + "|" + e.Dp, e.Dc})
+		}
+	}
+	for i := range ks {
+		for j := range ks {
+			if i != j && ks[i].head == ks[j].head && ks[i].last != ks[j].last && strings.HasPrefix(ks[j].last, ks[i].last) {
+				return true
+			}
+		}
+	}
+	return false
 }
